@@ -700,16 +700,18 @@ def transport_story(rng: Rng, cfg: dict) -> List[dict]:
     back = {"op": "block", "x": y, "y": x, "on": True, "how": how}
     forth = {"op": "block", "x": x, "y": y, "on": True, "how": how}
     kind = rng.below(6)
+    idle = [{"op": "tick"}] * rng.below(min(2, cfg["rto"] - 1) + 1)     # so that the session's clock differs from the current step
+    login_idle = [login] + idle
     if kind == 0:      # login whose reply is dropped: session on the target, the client does not know it
         ops = [back] + [login] * rng.range(1, cfg["max"] + 1) + [dict(back, on=False), cmd, login, cmd]
     elif kind == 1:    # command whose answer is dropped
-        ops = [login, back, cmd, cmd, dict(back, on=False), cmd]
+        ops = login_idle + [back, cmd, cmd, dict(back, on=False), cmd]
     elif kind == 2:    # logoff that never reaches the target: the session waits for its time-out
-        ops = [login, forth, {"op": "rlogoff", "x": x, "y": y}, dict(forth, on=False), cmd, login] + [{"op": "tick"}] * cfg["rto"]
+        ops = login_idle + [forth, {"op": "rlogoff", "x": x, "y": y}, dict(forth, on=False), cmd, login] + [{"op": "tick"}] * cfg["rto"]
     elif kind == 3:    # time-out whose notification is dropped: the client keeps a stale connection
         ops = [login, back] + [{"op": "tick"}] * cfg["rto"] + [dict(back, on=False), cmd, login, cmd]
     elif kind == 4:    # request direction blocked: nothing reaches the target
-        ops = [forth, login, dict(forth, on=False), login, forth, cmd, {"op": "tick"}, dict(forth, on=False), cmd]
+        ops = [forth, login, dict(forth, on=False)] + login_idle + [forth, cmd, {"op": "tick"}, dict(forth, on=False), cmd]
     else:              # password change / direct logout on the target while the disconnect message cannot travel
         ops = [login, back, rng.choice([{"op": "chpw", "y": y, "u": "admin", "old": "admin", "new": "pw1"},
                                         {"op": "usmlogout", "y": y, "i": 0}]), dict(back, on=False), cmd,
